@@ -98,9 +98,9 @@ def run(chk):
             failing.append((m, log))
     for p in problems:
         chk.oblige("site %s: %s" % (p["site"], p["why"]), False)
-    bad_ax = [a for a in axioms if a not in common.ALLOWED_AXIOMS and a.split(".")[-1] not in common.ALLOWED_AXIOMS]
+    bad_ax = [a for a in axioms if not common.axiom_allowed(a)]
     chk.oblige("generated obligations depend only on standard-library axioms", not bad_ax, str(bad_ax))
-    chk.assumptions = sorted(set(chk.assumptions) | axioms)
+    chk.assumptions = sorted(set(chk.assumptions) | {a for a in axioms if not a.startswith(common.PRIMITIVE_PREFIXES)})
     chk.extra["generated_obligations"] = len(metas)
     chk.extra["sites_not_translated (closures with a singular/local part)"] = [c["site"] for c in closures]
     chk.samples.append(dict(obligation=metas[0]["name"], kind=metas[0]["kind"], sing=metas[0].get("sing"), loc=metas[0]["loc"], sites=metas[0]["sites"]))
